@@ -427,6 +427,89 @@ def g2_stage(ctx, exe):
     return stats
 
 
+def g1_stage(ctx):
+    """registry sub-protocol on the REAL StaticRobustUniqueIndexSet under the baton scheduler (harness/g1/c06):
+    'last user leaves || late opener registers'.  Oracle of C06: nobody keeps a registration in a set whose
+    release(LockIfLastIndex) returned Locked (= a handle of a removed service); tie: the outcomes of every explored
+    schedule are outcomes of the model's registry steps (OReg/RIncr/DDereg/DSnap/DCas) for the same program."""
+    t0 = time.time()
+    ok, out, tdir = vlib.g1_build(["c06g1"])
+    if not ok:
+        ctx.violation("G1 harness (c06g1) does not build against /repo with the instrumented atomics drop-in", {"log": out[-3000:]}, no_input=True)
+        return
+    exe = os.path.join(tdir, "c06g1")
+    bound = 3 if ctx.thorough() else 2
+    rc, out = vlib.sh([exe, "exh", str(bound), "200000"], timeout=600)
+    lines = [l for l in out.split("\n") if l.startswith("X ")]
+    if rc != 0 or not lines:
+        ctx.violation("G1 registry exploration failed", {"rc": rc, "tail": out[-800:]}, no_input=True)
+        return
+    impl = {}
+    first = {}
+    for l in lines:
+        kv = dict(x.split("=", 1) for x in l.split()[1:] if "=" in x)
+        key = (kv["cap"], kv["prog"])
+        norm = "|".join(",".join(re.sub(r"^ok\d+$", "ok", r) for r in t.split(",")) if t else "" for t in kv["r"].split("|"))
+        impl.setdefault(key, {}).setdefault(norm, 0)
+        impl[key][norm] += 1
+        first.setdefault((key, norm), kv["sched"])
+        if "DEADLOCK" in l:
+            ctx.violation("registry protocol deadlocked under the scheduler: " + l[:300], {"line": l}, no_input=False)
+    # the model's outcome sets
+    inp = "".join("G cap=%s prog=%s\n" % k for k in sorted(impl))
+    p = subprocess.run(["timeout", "120", DRIVER], input=inp, stdout=subprocess.PIPE, stderr=subprocess.STDOUT, text=True)
+    model = {}
+    for l in p.stdout.split("\n"):
+        if l.startswith("GM "):
+            kv = dict(x.split("=", 1) for x in l.split()[1:])
+            model[(kv["cap"], kv["prog"])] = set(kv["outcomes"].split(";"))
+    nviol = 0
+    both_locked = 0
+    for key, outs in sorted(impl.items()):
+        prog_threads = key[1].split("|")
+        for norm, cnt in sorted(outs.items()):
+            res = [t.split(",") if t else [] for t in norm.split("|")]
+            locked = any("L" in r for r in res)
+            # a thread is a holder at the end if its last acquire succeeded and was not released afterwards
+            holders = []
+            for ti, r in enumerate(res):
+                held = 0
+                for op, v in zip(prog_threads[ti].split(","), r):
+                    if op == "acq" and v == "ok":
+                        held += 1
+                    if op == "lrel" and v in ("L", "U"):
+                        held -= 1
+                if held > 0:
+                    holders.append(ti)
+            sched = first[(key, norm)]
+            how = "%s one %s '%s' %s" % (exe, key[0], key[1], sched)
+            if locked and holders:
+                nviol += 1
+                if nviol <= 2:
+                    ctx.violation("a node registers successfully in a node registry that release(LockIfLastIndex) has locked: thread(s) %s hold an index "
+                                  "after Locked was returned -- at service level a late opener obtains a port factory of a service the last user has "
+                                  "just removed (cap=%s prog=%s results=%s, %d schedules)" % (holders, key[0], key[1], norm, cnt),
+                                  {"schedule": sched, "program": key[1], "capacity": key[0], "results": norm, "how_to_rerun": how,
+                                   "theorem": "c06_locked_no_holder / c06_holder_resources_exist need the re-check of the LOCK indicator in acquire() "
+                                              "(p_recheck); without it: c06_recheck_refuted"})
+            elif key in model and norm not in model[key]:
+                nviol += 1
+                if nviol <= 2:
+                    ctx.violation("G1 tie broken: the real index set produced an outcome the model's registry steps cannot produce: cap=%s prog=%s results=%s" % (key[0], key[1], norm),
+                                  {"schedule": sched, "model_outcomes": sorted(model[key]), "how_to_rerun": how}, no_input=True)
+            if sum(1 for r in res if "L" in r) >= 2:
+                both_locked += cnt
+    missing = {("%s %s" % k): sorted(model[k] - set(impl[k])) for k in model if k in impl and model[k] - set(impl[k])}
+    ctx.cov["g1_registry"] = {"executions": len(lines), "preemption_bound": bound, "programs": ["cap=%s %s" % k for k in sorted(impl)],
+                              "outcomes": {("cap=%s %s" % k): v for k, v in sorted(impl.items())},
+                              "model_outcomes_not_observed": missing,
+                              "schedules_where_two_releases_returned_Locked": both_locked, "wall_s": round(time.time() - t0, 1)}
+    if both_locked:
+        ctx.notes.append("G1: in %d explored schedules of the real index set TWO release(LockIfLastIndex) calls returned Locked (lock(): "
+                         "`if self.is_locked() { return Locked }`): both droppers get NoMoreOwners and both remove the service's resources; the model "
+                         "reproduces it (ghost flag gmulti, c06_single_last_refuted, c06_live_is_linked_refuted); not reported as a violation pending adjudication" % both_locked)
+
+
 def witness_stage(ctx, exe, g3exe):
     w = {}
     # regression (fixed by c6a737e): slice payload builders adjust zero capacities; no panic, nothing left behind
@@ -444,17 +527,26 @@ def witness_stage(ctx, exe, g3exe):
             ctx.violation("regression: create of a slice-payload service with a zero capacity must be adjusted to 1 (no panic, no leaked dynamic config, model agrees): "
                           + " / ".join(lines[:1] + endl)[:300], {"history": lines, "driver": out[-600:], "how_to_rerun": " ".join([g3exe] + argv) + " | " + DRIVER})
     try:
+        # regression (fixed by 868edb1): creator stopped between shm_open(O_CREAT|O_EXCL) and ftruncate, opener with
+        # creation_timeout = 0 must come back with HangsInCreation; the model agrees call by call
         rec, spins = witness_zero_size_spin(exe)
-        w["zero_size_spin"] = {"opener_fstat_zero": spins, "stalled": rec["stalled"], "opener_result": rec["results"].get("p1")}
+        w["zero_size_regression"] = {"opener_fstat_zero": spins, "stalled": rec["stalled"], "opener_result": rec["results"].get("p1")}
         tail = [l for l in rec["lines"] if l.startswith("X 1 ")][-20:]
         only_retry = all(re.match(r"X 1 (shm_open dyn\d+ ok|fstat dyn\d+ zero)$", l) for l in tail)
         if rec["stalled"] == "p1" and not rec["results"].get("p1") and spins >= 10 and only_retry:
             ctx.violation("open() with creation_timeout = 0 never returns while the creator stands between shm_open(O_CREAT|O_EXCL) and ftruncate of the "
                           "dynamic config: posix_shared_memory open_impl retries MappingSizeIsZero without a timeout check (%d retries observed, then stopped)" % spins,
                           {"schedule": "creator: 12 gated calls up to shm_open(O_CREAT|O_EXCL); then only the opener", "trace_tail": rec["lines"][-12:],
-                           "how_to_rerun": "python3 tools/checks/C06.py witness zero-size",
-                           "theorem": "c06_terminates_full is refuted by this schedule (c06_terminates_refuted, c06_open_spin_refuted)"},
+                           "how_to_rerun": "python3 tools/checks/C06.py witness zero-size"},
                           key="open:zero-size-dynamic-config-spins-without-timeout")
+        elif rec["results"].get("p1") != ["open err o:HangsInCreation"]:
+            ctx.violation("regression: opener with creation_timeout = 0 facing a zero-sized dynamic config must return HangsInCreation, got %r" % (rec["results"].get("p1"),),
+                          {"trace_tail": rec["lines"][-15:], "how_to_rerun": "python3 tools/checks/C06.py witness zero-size"})
+        else:
+            okd, mism, outd = drive([l for l in rec["lines"]])
+            if not okd or mism:
+                ctx.violation("G2 trace equality broken on the zero-size regression schedule: " + (mism or [outd[-200:]])[0][:300],
+                              {"lines": rec["lines"][-40:], "how_to_rerun": "python3 tools/checks/C06.py witness zero-size"}, no_input=True)
     except (gatectl.GateError, gatectl.GateTimeout) as ex:
         ctx.notes.append("witness zero-size could not be replayed: %r" % (ex,))
     try:
@@ -573,6 +665,7 @@ def run_inner(ctx):
 
     # ---- witnesses of refuted clauses on the real code, then G2 ----
     witness_stage(ctx, g2exe, g3exe)
+    g1_stage(ctx)
     g2_stage(ctx, g2exe)
 
     if not proof_ok and not ctx.violations:
